@@ -43,7 +43,8 @@ def sweep_alloc(quick):
         pool = list(range(3, 3 + slots + 1))
         for assign in itertools.permutations(pool, slots):
             d, c1, c2 = [assign[0]], list(assign[1:1 + m1]), list(assign[1 + m1:])
-            yield {"sweep": "alloc", "spec": {"parts": [{"size": 3 + slots + 2, "vols": [{"name": "VOL", "dir": d, "files": [
+            # (the pool ends with the LAST sector of the partition: size = 3 + slots + 1)
+            yield {"sweep": "alloc", "spec": {"parts": [{"size": 3 + slots + 1, "vols": [{"name": "VOL", "dir": d, "files": [
                 {"name": "ONE", "n": A.words_for_sectors(m1), "chain": c1, "seq": 1},
                 {"name": "TWO", "n": A.words_for_sectors(m2), "chain": c2, "seq": 2, "rate": 22050}]}]}]}}
     if not quick:
@@ -88,6 +89,15 @@ def sweep_sizes(quick):
             spec["parts"].append({"size": 6 + size % 7, "vols": [{"name": "VOLB", "dir": [3], "files": [
                 {"name": "SECOND", "n": 200, "chain": [4], "seq": 2, "rate": 22050}]}]})
         yield {"sweep": "sizes", "spec": spec}
+        # the same with the file (and, alternately, the directory) in the highest sector of the partition
+        spec2 = one_file_spec(300, 0, 300, "asc")
+        spec2["parts"][0]["size"] = size
+        v = spec2["parts"][0]["vols"][0]
+        if size % 2:
+            v["files"][0]["chain"] = [size - 1]
+        else:
+            v["dir"], v["files"][0]["chain"] = [size - 1], [3]
+        yield {"sweep": "sizes", "spec": spec2}
 
 
 def sweep_header(quick):
